@@ -767,6 +767,9 @@ func encodeHash(w *wr, h [][2][]byte, t byte, e *Encoding) {
 		zmLen := func(n int) {
 			if n < 254 {
 				b = append(b, byte(n))
+				if n == 253 {
+					w.f.add(fZmItem253)
+				}
 				return
 			}
 			b = append(b, 254, byte(n), byte(n>>8), byte(n>>16), byte(n>>24))
@@ -841,8 +844,15 @@ func encodeStream(w *wr, s *Stream, t byte, e *Encoding) {
 			p.add(fv[0])
 		}
 		p.addInt(0, WAuto)
+		ownDiff := false // an entry with its own, differently sized field list came earlier in this listpack
 		for _, en := range ents {
 			same := !e.NoSameFields && sameFieldNames(en.Fields, master.Fields)
+			if same && ownDiff {
+				w.f.add(fStreamSameAfterOwn)
+			}
+			if !same && len(en.Fields) != len(master.Fields) {
+				ownDiff = true
+			}
 			var flags int64
 			if en.Deleted {
 				flags |= 1
